@@ -6,7 +6,7 @@
    sequence functions.  The tactics look names up in the generated tree; no proof mentions a
    variable name of the Python. *)
 From Coq Require Import String Lia ZifyBool ZifyNat ZifyN.
-From Curtsies Require Import Model.Base Spec.ListOps Spec.PyMini Gen.Pure Gen.PureFmt Spec.PyEnvFmt
+From Curtsies Require Import Model.Base Model.Splice Spec.ListOps Spec.PyMini Gen.Pure Gen.PureFmt Spec.PyEnvFmt
   Model.Slice Model.Width Proofs.PyStep Proofs.PureTieBase Proofs.PureTieSlice Proofs.PureTieOverlap.
 Local Open Scope Z_scope.
 
@@ -254,6 +254,14 @@ Lemma oracle_fs_width_embed : forall wc f,
   oracle_FmtStr_width wc [embed_fmtstr f] = match fs_width wc f with Ok w => Ok (VInt w) | Raise e => Raise e end.
 Proof. intros wc f. unfold oracle_FmtStr_width. rewrite fmt_strs_embed, sum_widths_fs_width. reflexivity. Qed.
 
+(* oracle: fmtstr(s) for a str without an escape introducer *)
+Lemma oracle_fmtstr_plain : forall s, has_esc_intro s = false ->
+  oracle_fmtstr [VStr s] = Ok (embed_fmtstr (fmtstr_plain s)).
+Proof. intros s H. unfold oracle_fmtstr. rewrite H. reflexivity. Qed.
+
+(* the runs with a non-empty text (kept folded during symbolic execution) *)
+Definition nonempty_chunks (l : list chunk) : list chunk := filter (fun c => negb (is_empty (c_s c))) l.
+
 (* the generated getters of Chunk: run here, once, for every chunk (three small tie proofs) *)
 Lemma sem_Chunk_s_embed : forall ch, sem_Chunk_s [embed_chunk ch] = Ok (VStr (c_s ch)).
 Proof.
@@ -316,7 +324,10 @@ Ltac fcbv :=
          Z.of_nat Z.to_nat Z.gtb Z.ltb Z.sub Z.max Z.min Z.add Z.geb Z.leb Z.eqb Z.opp
          Slice.len chunk_len normalize_slice getitem getitem_loop loop_model round_post loop_post
          interval_overlap wcswidth was_chars was_char was_str was_walk fs_was fs_width chunk_width
-         ws_normalize_slice text str_width].
+         ws_normalize_slice text str_width
+         sem_FmtStr_divides gen_filter Splice.divides Splice.divides_from splice_items splice_step nonempty_chunks
+         sem_FmtStr_splice sem_FmtStr_add sem_FmtStr_radd sem_FmtStr_setslice_with_length embed_operand
+         Slice.add Slice.radd Splice.splice Splice.append Splice.setslice_with_length Splice.setitem spaces str_plus plus_str].
 Ltac fcbv_in H :=
   cbv - [exec exec_block for_loop lookup
          sem_normalize_slice sem_interval_overlap sem_Chunk_s sem_Chunk_atts sem_Chunk_len
@@ -329,7 +340,10 @@ Ltac fcbv_in H :=
          Z.of_nat Z.to_nat Z.gtb Z.ltb Z.sub Z.max Z.min Z.add Z.geb Z.leb Z.eqb Z.opp
          Slice.len chunk_len normalize_slice getitem getitem_loop loop_model round_post loop_post
          interval_overlap wcswidth was_chars was_char was_str was_walk fs_was fs_width chunk_width
-         ws_normalize_slice text str_width] in H.
+         ws_normalize_slice text str_width
+         sem_FmtStr_divides gen_filter Splice.divides Splice.divides_from splice_items splice_step nonempty_chunks
+         sem_FmtStr_splice sem_FmtStr_add sem_FmtStr_radd sem_FmtStr_setslice_with_length embed_operand
+         Slice.add Slice.radd Splice.splice Splice.append Splice.setslice_with_length Splice.setitem spaces str_plus plus_str] in H.
 
 (* the prelude of [call_in] (parameter binding, [mut_ok], the local names) appends closed lists *)
 Ltac pcbv :=
@@ -344,7 +358,10 @@ Ltac pcbv :=
          Z.of_nat Z.to_nat Z.gtb Z.ltb Z.sub Z.max Z.min Z.add Z.geb Z.leb Z.eqb Z.opp
          Slice.len chunk_len normalize_slice getitem getitem_loop loop_model round_post loop_post
          interval_overlap wcswidth was_chars was_char was_str was_walk fs_was fs_width chunk_width
-         ws_normalize_slice text str_width].
+         ws_normalize_slice text str_width
+         sem_FmtStr_divides gen_filter Splice.divides Splice.divides_from splice_items splice_step nonempty_chunks
+         sem_FmtStr_splice sem_FmtStr_add sem_FmtStr_radd sem_FmtStr_setslice_with_length embed_operand
+         Slice.add Slice.radd Splice.splice Splice.append Splice.setslice_with_length Splice.setitem spaces str_plus plus_str].
 
 (* an instance of a lemma, brought to the normal form of [fcbv] and rewritten with *)
 Ltac rew_norm L :=
@@ -362,6 +379,7 @@ Ltac object_step :=
       let v := eval cbv beta iota delta [oracle_Chunk mk_chunk] in (oracle_Chunk a) in change (oracle_Chunk a) with v
   | |- context [oracle_FmtStr ?a] =>
       let v := eval cbv beta iota delta [oracle_FmtStr mk_fmtstr] in (oracle_FmtStr a) in change (oracle_FmtStr a) with v
+  | H : has_esc_intro ?s = false |- context [oracle_fmtstr (cons (VStr ?s) nil)] => rew_norm (oracle_fmtstr_plain s H)
   | |- context [oracle_fmtstr ?a] =>
       let v := eval cbv in (oracle_fmtstr a) in change (oracle_fmtstr a) with v
   | |- context [oracle_wcwidth ?w ?a] =>
